@@ -126,7 +126,7 @@ def valgrind_lane(ctx):
     for k in range(n):
         m = pipeline.gen_model(r, max_modes=r.choice([2, 3, 3]))
         M = m.modes()
-        beta = r.choice([1.0, 2.0, 5.0])
+        beta = r.choice([1.0, 2.0, 5.0, 400.0, 3000.0])      # incl. temperatures at which Boltzmann factors underflow
         s = pipeline.core_script(m, order=r.below(2), symm=r.choice(["default", "default", "ignore"]), early=r.chance(1, 3), stress=r.chance(1, 3))
         s += pipeline.observables_script(r, m, beta, M, ngf=3, nchi=1, nsusc=1, ntriples=2)
         rc, bad = run_valgrind(exe, s)
